@@ -154,6 +154,14 @@ def apply(op, i, j, regs, x):
             regs[j] = copy.deepcopy(unyt_array([1.0, 2.0], "kpc", registry=r)).units.registry
         if regs[j] is r or regs[j].lut is r.lut:
             return set(), ("fork-shares-table:" + op, "")
+        d_src, d_new = digest(r), digest(regs[j])
+        if op == "fork_pickle":
+            # pickling does not carry the registry's default unit system (C11's recorded finding): base-reduction entries are not compared
+            d_src = {k_: v_ for k_, v_ in d_src.items() if "in_base" not in k_}
+            d_new = {k_: v_ for k_, v_ in d_new.items() if "in_base" not in k_}
+        if d_src != d_new:
+            diff = sorted(p for p in set(d_src) | set(d_new) if d_src.get(p) != d_new.get(p))
+            return set(), ("fork-differs-from-its-source:" + op, repr({p: (d_src.get(p), d_new.get(p)) for p in diff[:3]})[:300])
         acted = {j}
     elif op == "define_on_default_copy":
         # private copies of the *default* registry are private: defining a unit there changes neither the unyt namespace nor the default registry
